@@ -25,6 +25,9 @@ TCB_NOTE = ("Trusted: Verus/Z3; Message imported by contract (verified in unit m
 
 K_BITVEC = {"unit": "bitvec", "inject": "elvis-core/src/protocols/ipv4/reassembly/bitvec.rs", "crate": "elvis-core"}
 K_SOCKRECV = {"unit": "sockrecv", "inject": "elvis-core/src/protocols/socket_api/socket.rs", "crate": "elvis-core"}
+K_BUFID = {"unit": "bufid", "inject": "elvis-core/src/protocols/ipv4/reassembly/buf_id.rs", "crate": "elvis-core"}
+K_DHCP = {"unit": "dhcp", "inject": "elvis-core/src/protocols/dhcp/dhcp_parsing.rs", "crate": "elvis-core"}
+K_DNS = {"unit": "dns", "inject": "elvis-core/src/protocols/dns/dns_parsing.rs", "crate": "elvis-core"}
 K_IPGEN = {"unit": "ipgen", "inject": "elvis/src/ip_generator.rs", "crate": "elvis"}
 
 PROPS = {
@@ -33,8 +36,8 @@ PROPS = {
         "kani": [K_SOCKRECV],
         "level": "proof",
         "technique": "Verus contract on the buffer arithmetic of the extracted Socket::recv (loop closed by an inductive invariant) over a ghost queue of pending messages; concrete witnesses replayed on the real async function",
-        "level_text": "READ-SIDE SENTENCE ONLY ('a read that asks for at most n bytes never returns more than n, and successive reads never lose, duplicate or reorder bytes'): Socket::recv is verified, for every request size, every stored remainder and every queue of pending messages (unbounded number and sizes, arbitrary chunk layouts), to return at most `bytes` bytes and to satisfy  returned ++ pending_after == pending_before, where pending = stored remainder ++ concatenation of the queued messages in delivery order. By induction over calls the concatenation of successive reads is a prefix of what the socket was handed, in order, with nothing lost or duplicated. The first sentence of C02 (what the peer's socket is handed equals what was written, across TCP/UDP/IPv4/ARP/link and tokio schedules) is NOT decided by this check.",
-        "level_note": "Trusted: Verus/Z3; Message imported by contract (verified in unit message; Message::iter() 'yields exactly the view' is that unit's assumption). The extraction keeps the function body but applies declared rewrites that remove everything asynchronous: `async`, the session/listening check, yield_now, the shutdown subscription; `select!{shutdown, recv}` and `try_recv()` are routed to assumed-contract queue functions (a delivered message is the head of the ghost queue), Vec::extend(iter) to an assumed-contract append; struct Socket is reduced to the three fields recv uses. Hence concurrency (a message arriving or shutdown firing during the call) is modelled only as the nondeterministic outcome of those two functions. Termination of the receive loop is not verified. recv_msg, accept's replay of stored messages, Socket::send, SocketSession, TcpSession ordering and datagram isolation are not under contract.",
+        "level_text": "READ-SIDE SENTENCE ONLY ('a read that asks for at most n bytes never returns more than n, and successive reads never lose, duplicate or reorder bytes'): Socket::recv is verified, for every request size, every stored remainder and every queue of pending messages (unbounded number and sizes, arbitrary chunk layouts), to return at most `bytes` bytes and to satisfy  returned ++ pending_after == pending_before, where pending = stored remainder ++ concatenation of the queued messages in delivery order. By induction over calls the concatenation of successive reads is a prefix of what the socket was handed, in order, with nothing lost or duplicated; Socket::recv_msg is verified against the same ghost stream (it takes exactly the stored remainder, else the head message). The first sentence of C02 (what the peer's socket is handed equals what was written, across TCP/UDP/IPv4/ARP/link and tokio schedules) is NOT decided by this check.",
+        "level_note": "Trusted: Verus/Z3; Message imported by contract (verified in unit message; Message::iter() 'yields exactly the view' is that unit's assumption). The extraction keeps the function body but applies declared rewrites that remove everything asynchronous: `async`, the session/listening check, yield_now, the shutdown subscription; `select!{shutdown, recv}` and `try_recv()` are routed to assumed-contract queue functions (a delivered message is the head of the ghost queue), Vec::extend(iter) to an assumed-contract append; struct Socket is reduced to the three fields recv uses. Hence concurrency (a message arriving or shutdown firing during the call) is modelled only as the nondeterministic outcome of those two functions. Termination of the receive loop is not verified. accept's replay of stored messages, Socket::send, SocketSession, TcpSession ordering and datagram isolation are not under contract.",
         "assumptions": ["tokio mpsc delivers queued messages in FIFO order (assumed contract of vx_recv_blocking / vx_try_recv)", "Vec::extend appends exactly what the iterator yields", "cross-stack delivery (first sentence of C02) undecided"],
         "explanation": "bounded reads over the socket's pending byte stream",
     },
@@ -80,7 +83,7 @@ PROPS = {
     },
     "C11": {
         "units": ["reasm", "message"],
-        "kani": [K_BITVEC],
+        "kani": [K_BITVEC, K_BUFID],
         "level": "proof",
         "technique": "Verus contracts on the extracted reassembly/{bitvec,fragment,segment}.rs functions; BinaryHeap by assumed specification",
         "level_text": "Per-call reassembly contract on Segment::receive_packet for all fragments and all prior states satisfying the representation invariant: exactly the blocks FO..FO+ceil(len/8) are marked, the final fragment fixes the total length, a datagram is returned exactly when the final fragment has been seen and every block is covered, the returned header is the offset-0 header with total length restored and MF cleared, an incomplete arrival bumps the epoch that guards expiry; PAYLOAD: relative to the datagram d whose slices the buffer holds (ghost parameter), for any arrival order and any exact repetitions of fragments, the pieces stay block-disjoint slices of d and the returned payload equals d byte for byte (tiling lemma over the heap's pop order, permutation lemma for push); BitVec get/set/set_range/range_complete/complete against the set-of-bits view (loops closed by invariants); Fragment order verified.",
@@ -100,7 +103,7 @@ PROPS = {
     },
     "C14": {
         "units": ["dhcp", "dns"],
-        "kani": [K_IPV4HDR, K_UDPHDR, K_TCPHDR, K_ARP],
+        "kani": [K_IPV4HDR, K_UDPHDR, K_TCPHDR, K_ARP, K_DHCP, K_DNS],
         "level": "proof",
         "technique": "Kani full-domain harnesses on the real fixed-size decoders (panic-freedom = every unwrap/index/arith check CBMC generates); Verus on the extracted DHCP decoder and BytesExt readers over an arbitrary byte iterator",
         "level_text": "Decoder clause: for every byte string (all lengths 0..=N+4 of symbolic bytes, symbolic packet_len) the IPv4/UDP/TCP/ARP decoders return a value or an error - CBMC proves every panic site (unwrap, index, arithmetic overflow) unreachable; truncations are always rejected; accepted inputs re-encode without panic. DHCP: DhcpMessage::from_bytes and MessageType::try_from are verified by Verus for an arbitrary (unbounded) byte iterator: every unwrap / unreachable! / `?` is a discharged obligation, a truncated fixed part is rejected, the fixed fields sit at their offsets.",
@@ -110,7 +113,7 @@ PROPS = {
     },
     "C08": {
         "units": ["dhcp", "dns"],
-        "kani": [K_IPV4HDR, K_UDPHDR, K_TCPHDR, K_ARP],
+        "kani": [K_IPV4HDR, K_UDPHDR, K_TCPHDR, K_ARP, K_DHCP, K_DNS],
         "level": "proof",
         "technique": "Kani full-domain harnesses (loop-free => complete) on the real codec functions: decode/re-encode, encode/decode, RFC wire layout",
         "level_text": "IPv4, UDP, TCP and ARP codecs: for every fixed-size header byte string the decoder accepts, re-encoding reproduces the bytes; for every value the public builders can produce, decoding the encoding returns it; the encoder output equals the RFC 791/768/9293/826 layout written out byte by byte in the harness. CBMC explores all inputs (no bound: the code is loop-free in the default feature set; the 2-iteration next_n loop is fully unwound with unwinding assertions).",
@@ -152,7 +155,7 @@ PROPS = {
         "kani": [K_MODCMP, K_SEGORD],
         "level": "proof",
         "technique": "Verus contracts on the extracted modular_cmp.rs functions + Kani full-domain harnesses on the real crate",
-        "level_text": "Every comparison primitive (mod_lt/leq/gt/geq/mod_bounded, ModCmp::offset) carries an exact postcondition against the mathematical circular order, discharged by Verus for all 2^32 x 2^32 (x 2^32) arguments and re-proved bit-precisely by loop-free Kani harnesses on the compiled crate; translation invariance is a lemma over those contracts.",
+        "level_text": "Every comparison primitive (mod_lt/leq/gt/geq/mod_bounded, ModCmp::offset) carries an exact postcondition against the mathematical circular order, discharged by Verus for all 2^32 x 2^32 (x 2^32) arguments and re-proved bit-precisely by loop-free Kani harnesses on the compiled crate; translation invariance is a lemma over those contracts. Connection level: the TCB contracts that determine the observables (text delivered and the movement of RCV.NXT, SND.UNA, SND.NXT, acceptability per RFC 9293 Table 6, the window-update rule, what the retransmission queue keeps, the numbering of new segments, the ISS/IRS bookkeeping of open and listen) are stated exclusively through circular distances and add32/sub32 relative to the TCB's own variables, so they are translation-invariant by form: any body that satisfies them behaves identically under a shift of either ISN on those observables, and a change that compares or subtracts absolute sequence numbers (saturating_sub, <, max) fails the clause for the inputs that straddle the wrap.",
         "level_note": "Trusted: Verus/Z3, Kani/CBMC; vstd's specification of u32::wrapping_add/wrapping_sub. The lifting of translation invariance to whole connections rests on the TCB unit (see evidence for which TCB functions carry exact contracts).",
         "assumptions": ["vstd specs of u32::wrapping_add / wrapping_sub"],
         "explanation": "comparison primitives against the mathematical circular order (Verus, all u32 pairs; Kani full-domain twin) and translation invariance lemmas",
